@@ -515,3 +515,73 @@ Theorem c09_code_rtnext_absent_pass : forall m rho tr idx sh F,
         body_ieee80211_radiotap_iterator_next.
 Proof. exact rtnext_code_absent_pass. Qed.
 Print Assumptions c09_code_rtnext_absent_pass.
+
+(* the pass that REPORTS A FIELD (Proofs/CodeRadiotapNextHit.v), for ALL values in range: argument present, field number below n_bits
+   in the radiotap namespace whose table the memory holds.  Alignment and size are LOADED from the table, the argument pointer is
+   rounded up to the alignment relative to the header, the bounds test decides between -EINVAL and the hit; on a hit the default group
+   of the second switch sets hit, falls INTO the label next_entry (shifter >> 1, index + 1), `if (hit)` returns 0 with
+   this_arg_index = idx and this_arg = header + the ALIGNED offset (the model's  Hit (r_idx it) a), _arg behind the field. *)
+From LW Require Import Proofs.CodeRadiotapGen Proofs.CodeRadiotapNextHit.
+
+Theorem c09_code_rtnext_field_pass : forall m rho tr idx sh h a mx rns T F,
+  rho "iterator->_arg_index" = idx -> rho "iterator->_bitmap_shifter" = sh -> rho "iterator->_arg" = h + a ->
+  rho "iterator->_rtheader" = h -> rho "iterator->_max_length" = mx -> rho "iterator->current_namespace" = rns ->
+  0 <= idx < rtap_n_bits -> 0 <= sh < 2 ^ 32 -> Z.odd sh = true ->
+  0 <= h -> 0 <= a -> h + a + 32 < 2 ^ 62 -> 0 <= mx < 2 ^ 31 -> 0 < rns < 2 ^ 62 -> 0 <= rho "iterator->_next_ns_data" < 2 ^ 64 ->
+  load_le m (rns + 8) 4 = Some rtap_n_bits -> load_le m rns 8 = Some T -> 0 <= T < 2 ^ 62 ->
+  table_at m T (fun k => fst (table_entry k)) (fun k => snd (table_entry k)) ->
+  let al := fst (table_entry idx) in let sz := snd (table_entry idx) in
+  let a' := if a mod al =? 0 then a else a + (al - a mod al) in
+  if mx <? a' + sz then
+    exists rho', execg (60 + F) m rho tr body_ieee80211_radiotap_iterator_next = GReturned (Some (- EINVAL)) rho' tr
+  else
+    exists rho', execg (60 + F) m rho tr body_ieee80211_radiotap_iterator_next = GReturned (Some 0) rho' tr /\
+      rho' "iterator->this_arg_index" = idx /\ rho' "iterator->this_arg" = h + a' /\ rho' "iterator->this_arg_size" = sz /\
+      rho' "iterator->_arg" = h + (a' + sz) /\ rho' "iterator->_bitmap_shifter" = Z.shiftr sh 1 /\
+      rho' "iterator->_arg_index" = idx + 1 /\ rho' "iterator->_max_length" = mx /\ rho' "iterator->_rtheader" = h /\
+      rho' "iterator->current_namespace" = rns /\ rho' "iterator->_next_bitmap" = rho "iterator->_next_bitmap" /\
+      rho' "iterator->_reset_on_ext" = rho "iterator->_reset_on_ext".
+Proof. exact rtnext_code_field_pass. Qed.
+Print Assumptions c09_code_rtnext_field_pass.
+
+(* the pass over bit 29 (namespace reset): the jump out of case 29 INTO THE DEFAULT GROUP OF THE SAME SWITCH lands behind the label *)
+From LW Require Import Proofs.CodeRadiotapNextReset Proofs.CodeRadiotapNextExt.
+Theorem c09_code_rtnext_ns_reset_pass : forall m rho tr idx sh h a mx rns F,
+  rho "iterator->_arg_index" = idx -> rho "iterator->_bitmap_shifter" = sh -> rho "iterator->_arg" = h + a ->
+  rho "iterator->_rtheader" = h -> rho "iterator->_max_length" = mx -> rho "&radiotap_ns" = rns ->
+  0 <= idx < 2 ^ 31 - 1 -> idx mod 32 = c_IEEE80211_RADIOTAP_RADIOTAP_NAMESPACE -> 0 <= sh < 2 ^ 32 -> Z.odd sh = true ->
+  0 <= h -> 0 <= a -> h + a + 32 < 2 ^ 62 -> 0 <= mx < 2 ^ 31 -> 0 <= rns < 2 ^ 64 ->
+  if mx <? a then
+    exists rho', execg (60 + F) m rho tr body_ieee80211_radiotap_iterator_next = GReturned (Some (- EINVAL)) rho' tr
+  else
+    exists rho', execg (60 + F) m rho tr body_ieee80211_radiotap_iterator_next =
+                 execg (59 + F) m rho' tr body_ieee80211_radiotap_iterator_next /\
+      rho' "iterator->_arg" = h + a /\ rho' "iterator->_bitmap_shifter" = Z.shiftr sh 1 /\ rho' "iterator->_arg_index" = idx + 1 /\
+      rho' "iterator->_reset_on_ext" = 1 /\ rho' "iterator->current_namespace" = rns /\ rho' "iterator->is_radiotap_ns" = 1 /\
+      rho' "iterator->_max_length" = mx /\ rho' "iterator->_rtheader" = h /\
+      rho' "iterator->_next_bitmap" = rho "iterator->_next_bitmap".
+Proof. exact rtnext_code_ns_reset_pass. Qed.
+Print Assumptions c09_code_rtnext_ns_reset_pass.
+
+(* the pass over bit 31 (another present word follows): the word is LOADED at _next_bitmap inside the header, _next_bitmap + 4,
+   the index reset to 0 after a namespace word and incremented otherwise *)
+Theorem c09_code_rtnext_ext_pass : forall m rho tr idx sh h buf a mx nb rs F,
+  holds m h buf -> wfbytes buf ->
+  rho "iterator->_arg_index" = idx -> rho "iterator->_bitmap_shifter" = sh -> rho "iterator->_arg" = h + a ->
+  rho "iterator->_rtheader" = h -> rho "iterator->_max_length" = mx -> rho "iterator->_next_bitmap" = h + nb ->
+  rho "iterator->_reset_on_ext" = rs ->
+  0 <= idx < 2 ^ 31 - 2 -> idx mod 32 = c_IEEE80211_RADIOTAP_EXT -> 0 <= sh < 2 ^ 32 -> Z.odd sh = true ->
+  0 <= h -> 0 <= a -> h + a + 32 < 2 ^ 62 -> 0 <= mx < 2 ^ 31 -> 0 <= nb -> nb + 4 <= zlen buf -> h + nb + 4 < 2 ^ 62 ->
+  - 2 ^ 31 <= rs < 2 ^ 31 ->
+  if mx <? a then
+    exists rho', execg (60 + F) m rho tr body_ieee80211_radiotap_iterator_next = GReturned (Some (- EINVAL)) rho' tr
+  else
+    exists rho' tr', execg (60 + F) m rho tr body_ieee80211_radiotap_iterator_next =
+                     execg (59 + F) m rho' tr' body_ieee80211_radiotap_iterator_next /\
+      rho' "iterator->_arg" = h + a /\ rho' "iterator->_bitmap_shifter" = le32 buf nb /\
+      rho' "iterator->_arg_index" = (if rs =? 0 then idx + 1 else 0) /\
+      rho' "iterator->_next_bitmap" = h + nb + 4 /\ rho' "iterator->_reset_on_ext" = 0 /\
+      rho' "iterator->_max_length" = mx /\ rho' "iterator->_rtheader" = h /\
+      rho' "iterator->current_namespace" = rho "iterator->current_namespace".
+Proof. exact rtnext_code_ext_pass. Qed.
+Print Assumptions c09_code_rtnext_ext_pass.
